@@ -250,7 +250,8 @@ class NoteContainer(object):
         elif hasattr(notes, "name"):
             return self.remove_note(notes)
         else:
-            for x in notes:
+            # notes may be this very container: walk a snapshot
+            for x in list(notes):
                 self.remove_note(x)
             return self.notes
 
